@@ -397,7 +397,11 @@ def write_evidence(ctx):
         "wall_s": round(time.time() - ctx.t0, 2),
         "violations": len(ctx.violations),
     }
-    path = os.path.join(VERIF, "evidence", ctx.prop + ".json")
+    if os.path.abspath(REPO) == "/repo":
+        path = os.path.join(VERIF, "evidence", ctx.prop + ".json")
+    else:   # a run against a scratch copy of rope never overwrites the committed evidence
+        os.makedirs(os.path.join(BUILD, "evidence-scratch"), exist_ok=True)
+        path = os.path.join(BUILD, "evidence-scratch", ctx.prop + ".json")
     with open(path, "w") as f:
         json.dump(ev, f, indent=1, default=repr)
     return path
